@@ -1252,13 +1252,22 @@ func (m *Model) ruleINSERTGUARD(r *Results) {
 			continue
 		}
 		cond := false
+		what := "CAS-conditional"
 		for _, c := range dw.W.Where {
 			if colEqParam(c, "cas") != nil {
 				cond = true
+				continue
+			}
+			// any conjunct beyond the row's address (collection, key) can leave an existing row
+			// unmatched: the statement then changes nothing although the closure goes on to report
+			// (and post an event for) the write
+			if colEqParam(c, "collection") == nil && colEqParam(c, "key") == nil {
+				cond = true
+				what = "conditional (" + c.String() + ")"
 			}
 		}
 		if cond {
-			r.check(m.rowsAffectedConsulted(dw.Site), rule, dw.Site.key(m, dw.Variant)+" / RowsAffected", m.instrPos(dw.Site.Call), "the statement's RowsAffected is consulted", "CAS-conditional UPDATE whose RowsAffected is never consulted")
+			r.check(m.rowsAffectedConsulted(dw.Site), rule, dw.Site.key(m, dw.Variant)+" / RowsAffected", m.instrPos(dw.Site.Call), "the statement's RowsAffected is consulted", what+" UPDATE whose RowsAffected is never consulted: when the condition does not hold nothing is written, yet the operation reports success and posts an event (new CAS, next revision number) for a change the row never saw")
 		}
 	}
 	// the KV Add entry points reach only guarded inserts
